@@ -375,10 +375,16 @@ impl Check {
             self.id, self.part, self.tier.name(), ev, nt, st, tr, unlisted, known_hit, wall
         );
         if !merr.is_empty() {
-            for e in merr {
+            for e in &merr {
                 eprintln!("MACHINERY: {}", e);
             }
-            return 2;
+            // A violation demonstrated against the real code (with its replay artefact) stands on its
+            // own; engine cross-checks that fail next to it (state counts of two engines on a tree
+            // whose state space has exploded, a changed violation set under another age cap) are
+            // consequences, not reasons to withhold the verdict.
+            if unlisted == 0 {
+                return 2;
+            }
         }
         if unlisted > 0 {
             1
